@@ -132,13 +132,17 @@ func (f *FilterType) SetDataForFunction(tagType EEBusTagTypeType, fct FunctionTy
 			break
 		}
 
-		if reflect.ValueOf(data).IsNil() {
-			typ := reflect.TypeOf(data).Elem()
-			ff.Set(reflect.New(typ))
+		dataV := reflect.ValueOf(data)
+		// data of another type than the member's does not belong to this function
+		if !dataV.Type().ConvertibleTo(ff.Type()) {
 			return
 		}
 
-		dataV := reflect.ValueOf(data)
+		if dataV.IsNil() {
+			ff.Set(reflect.New(ff.Type().Elem()))
+			return
+		}
+
 		dataC := dataV.Convert(ff.Type())
 		ff.Set(dataC)
 		return
